@@ -2315,17 +2315,50 @@ def div_dense_calls(short):
         calls += [f"ctor-opt:{s}" for s in sels] + ["ctor-opt-pos:full", "reuse-dict"]
         calls += [f"static:perm-int+opt:{s}" for s in sels] + ["static:exact+opt:full", "static:perm-qubit+opt:full", "static:reg-slice+opt:full",
                                                                "static-pos:perm-int+opt:full"]
+        # the flags and the falsy-valued options in their other forms, through the constructor (keyword / positional) and the
+        # static helper (keyword / positional): no form of an option may switch the validation of the vector off
+        fsels = [f"full@{f}" for f in DIV_OPT_FORMS]
+        if short in DIV_DENSE_FLIP:
+            fsels += ["flip"] + [f"flip@{f}" for f in DIV_OPT_FORMS]
+        for i, fs in enumerate(fsels):
+            calls += [f"ctor-opt:{fs}", f"static:perm-int+opt:{fs}", ("ctor-opt-pos:", "static-pos:perm-int+opt:")[i % 2] + fs]
     return calls
 
 
+# every boolean option flipped and every numeric option at its VALID FALSY value (lr 0 = full rank, target_state 0, loss 0.0,
+# max_combination_size 0), relative to DIV_DENSE_OPTS: together the two sets hold True and False of every flag
+DIV_DENSE_FLIP = {
+    "TopDownInitialize": {"global_phase": True, "lib": "qclib"},
+    "LowRankInitialize": {"lr": 0, "iso_scheme": "ccd", "unitary_scheme": "qsd", "partition": [0], "svd": "auto"},
+    "UCGInitialize": {"target_state": 0, "preserve_previous": False},
+    "UCGEInitialize": {"target_state": 0, "preserve_previous": False},
+    "BaaLowRankInitialize": {"max_fidelity_loss": 0.0, "strategy": "greedy", "max_combination_size": 0, "use_low_rank": False},
+}
+DIV_OPT_FORMS = ("np", "int")       # numpy.bool_ / numpy.int64 / numpy.float64; int 1 / 0 for the flags (numbers stay Python numbers)
+
+
+def _div_opt_form(v, form):
+    """an option value in the form named: 'np' -> numpy.bool_ / numpy.int64 / numpy.float64, 'int' -> flags as int 1 / 0 and an
+    integral float as int (0.0 -> 0)"""
+    import numpy as np
+    if isinstance(v, bool):
+        return np.bool_(v) if form == "np" else int(v)
+    if isinstance(v, int):
+        return np.int64(v) if form == "np" else v
+    if isinstance(v, float):
+        return np.float64(v) if form == "np" else (int(v) if v == int(v) else v)
+    return list(v) if isinstance(v, list) else v
+
+
 def _div_sel(short, sel):
-    full = DIV_DENSE_OPTS[short]
+    sel, _, form = sel.partition("@")
+    full = DIV_DENSE_FLIP[short] if sel == "flip" else DIV_DENSE_OPTS[short]
     if sel == "none":
         return None
     if sel == "empty":
         return {}
-    if sel == "full":
-        return {k: (list(v) if isinstance(v, list) else v) for k, v in full.items()}
+    if sel in ("full", "flip"):
+        return {k: (_div_opt_form(v, form) if form else (list(v) if isinstance(v, list) else v)) for k, v in full.items()}
     k = sel[len("only-"):]
     return {k: (list(full[k]) if isinstance(full[k], list) else full[k])}
 
@@ -2417,18 +2450,21 @@ DIV_U2_HELPER = {"Ldmcu": "ldmcu", "Ldmcsu": "ldmcsu", "LdMcSpecialUnitary": "ld
 def div_u2_calls(short, valid):
     if short == "MultiTargetMCSU2[list]":
         return ["list:0/1", "list:0/2", "list:1/2", "list:0/3", "list:1/3", "list:2/3", "list-kw:1/3:cs=101", "static-list:0/2", "static-list:1/2",
-                "static-list:1/3:qubit", "static-list:2/3:reg:cs=010"]
+                "static-list:1/3:qubit", "static-list:2/3:reg:cs=010",
+                "list-kw:1/3:csi=0", "list-kw:0/2:csi=7:csform=np", "static-list:1/2:csi=0:csform=np"]      # decimal control state 0 (all open; falsy) / 7
     if short == "MultiTargetMCSU2[single]":
         return ["single:k0", "single:k1", "single:k3", "single:k5", "single-kw:k3:cs=101", "static-single:perm-int", "static-single:qubit:cs=101",
-                "static-single:reg"]
+                "static-single:reg", "single-kw:k3:csi=0", "single-kw:k3:csi=5:csform=np", "static-single:perm-int:csi=0"]
     if short == "MCU":
         calls = ["ctor:k8", "ctor-kw:k8:e0.01", "ctor:k9:e0.5:cs=111111111", "ctor:k8:cs=10101010", "static:perm-int:e0", "static:perm-int:e0.1",
-                 "static:qubit:e0.1:cs=11110000", "static:reg:e0:cs=101"]
+                 "static:qubit:e0.1:cs=11110000", "static:reg:e0:cs=101",
+                 "static:perm-int:e0:eform=int", "static:qubit:e0:eform=np", "static:reg:e0.1:eform=np"]     # error 0 as int 0 / numpy.float64(0)
         return calls if valid else calls + ["ctor:k0", "ctor:k1", "ctor:k2", "ctor:k3", "ctor:k5"]
     calls = ["ctor:k0", "ctor:k1", "ctor:k2", "ctor:k3", "ctor:k5", "ctor-kw:k3", "ctor:k3:cs=000", "ctor:k3:cs=101", "ctor:k3:cs=111",
              "ctor:k3:cs-pos=101", "static:perm-int", "static:qubit", "static:reg", "static:perm-int:cs=101", "static:qubit:cs=000", "static:reg:cs=111"]
     if short == "Mcg":
         calls += ["ctor:k3:utd", "ctor:k3:cs=101+utd", "ctor:k0:utd"]
+        calls += ["ctor:k3:utd@np1", "ctor:k3:utd@i1", "ctor:k3:utd@b0", "ctor:k3:utd@np0", "ctor:k3:utd@i0", "ctor:k5:utd@np1", "ctor:k0:utd@i1"]
     return calls
 
 
@@ -2462,6 +2498,10 @@ def _div_make_u2(short, call, obj):
     C = _div_classes()
     good = np.array(DIV_GOOD)
     cs = _div_tag(call, "cs=")
+    if _div_tag(call, "csi=") is not None:          # decimal control state (documented for MultiTargetMCSU2): Python int / numpy.int64
+        cs = int(_div_tag(call, "csi="))
+        if _div_tag(call, "csform=") == "np":
+            cs = np.int64(cs)
     if short.startswith("MultiTargetMCSU2"):
         MT = C["MultiTargetMCSU2"]
         head = call.split(":")[0]
@@ -2490,6 +2530,9 @@ def _div_make_u2(short, call, obj):
     if head in ("ctor", "ctor-kw"):
         k = int(_div_tag(call, "k"))
         utd = "utd" in call.replace("+", ":").split(":")
+        utdf = _div_tag(call, "utd@")               # up_to_diagonal as numpy.bool_ / int / bool, True and False
+        if utdf is not None:
+            utd = {"np": np.bool_, "i": int, "b": bool}[utdf[:-1]](int(utdf[-1]))
         cspos = _div_tag(call, "cs-pos=")
         if short == "MCU":
             err = float(_div_tag(call, "e", "0.1"))
@@ -2505,7 +2548,9 @@ def _div_make_u2(short, call, obj):
         kw = {}
         if cs is not None:
             kw["ctrl_state"] = cs
-        if utd:
+        if utdf is not None:
+            kw["up_to_diagonal"] = utd
+        elif utd:
             kw["up_to_diagonal"] = True
         return (lambda: cls(obj, k, **kw)), None, None, []
     if head == "static":
@@ -2514,6 +2559,9 @@ def _div_make_u2(short, call, obj):
         if short == "MCU":
             err = float(_div_tag(call, "e"))
             k = 8 if err > 0 else 3
+            ef = _div_tag(call, "eform=")
+            if ef is not None:
+                err = np.float64(err) if ef == "np" else (int(err) if err == int(err) else err)
             if cs is not None and len(cs) != k:
                 cs = (cs * k)[:k]
             qc, ctl, tg, expect = _div_gate_host(style, k)
@@ -2528,11 +2576,15 @@ def _div_make_u2(short, call, obj):
 
 
 DIV_UNITARY_CALLS = ["u", "u:pos:qsd", "u:kw:csd", "u:kw:qr", "u:iso1", "u:iso2", "u:a2off", "u:all-pos", "u:all-kw", "u:csd+iso2",
-                     "u:qr+iso1+a2off", "cnot:exact", "cnot:exact:csd+iso1"]
+                     "u:qr+iso1+a2off", "cnot:exact", "cnot:exact:csd+iso1",
+                     # apply_a2 True / False as numpy.bool_ / int, iso = 0 (falsy, valid) / 1 as numpy.int64 / int32, positional and keyword
+                     "u:a2@np1", "u:a2@np0", "u:a2@i1", "u:a2@i0", "u:iso@np0", "u:iso@np1", "u:all-pos@np", "u:all-kw@int", "u:all-pos@i32",
+                     "cnot:exact@np"]
 DIV_ISO_CALLS = ["d", "d:pos:ccd", "d:kw:csd", "d:kw:knill", "d:pos:knill", "d:pos:csd", "cnot:exact:ccd", "cnot:exact:csd"]
 
 
 def _div_make_fn(kind, call, obj):
+    import numpy as np
     from qclib import unitary as umod, isometry as imod
     if kind == "unitary":
         table = {"u": lambda: umod.unitary(obj), "u:pos:qsd": lambda: umod.unitary(obj, "qsd"),
@@ -2542,7 +2594,14 @@ def _div_make_fn(kind, call, obj):
                  "u:all-kw": lambda: umod.unitary(gate=obj, decomposition="csd", iso=1, apply_a2=False),
                  "u:csd+iso2": lambda: umod.unitary(obj, "csd", iso=2), "u:qr+iso1+a2off": lambda: umod.unitary(obj, "qr", 1, apply_a2=False),
                  "cnot:exact": lambda: umod.cnot_count(obj, method="exact"),
-                 "cnot:exact:csd+iso1": lambda: umod.cnot_count(obj, "csd", "exact", 1, False)}
+                 "cnot:exact:csd+iso1": lambda: umod.cnot_count(obj, "csd", "exact", 1, False),
+                 "u:a2@np1": lambda: umod.unitary(obj, apply_a2=np.bool_(True)), "u:a2@np0": lambda: umod.unitary(obj, apply_a2=np.bool_(False)),
+                 "u:a2@i1": lambda: umod.unitary(obj, "qsd", 0, 1), "u:a2@i0": lambda: umod.unitary(obj, apply_a2=0),
+                 "u:iso@np0": lambda: umod.unitary(obj, iso=np.int64(0)), "u:iso@np1": lambda: umod.unitary(obj, "csd", np.int64(1)),
+                 "u:all-pos@np": lambda: umod.unitary(obj, "qsd", np.int64(1), np.bool_(False)),
+                 "u:all-kw@int": lambda: umod.unitary(gate=obj, decomposition="csd", iso=0, apply_a2=1),
+                 "u:all-pos@i32": lambda: umod.unitary(obj, "qsd", np.int32(0), np.bool_(True)),
+                 "cnot:exact@np": lambda: umod.cnot_count(obj, "qsd", "exact", np.int64(0), np.bool_(True))}
     else:
         table = {"d": lambda: imod.decompose(obj), "d:pos:ccd": lambda: imod.decompose(obj, "ccd"),
                  "d:kw:csd": lambda: imod.decompose(obj, scheme="csd"), "d:kw:knill": lambda: imod.decompose(isometry=obj, scheme="knill"),
@@ -2563,6 +2622,35 @@ def _div_make(name, call, obj):
 
 
 # ---------------------------------------------------------------------------------------------- evaluation
+
+def _div_flagform_counters(short, call):
+    """flagforms:<option>:<form> counters of a call form that hands an option over in another form / at its falsy value"""
+    out = []
+    via = call.split(":")[0].split("+")[0]
+    if "+opt:" in call or call.startswith("ctor-opt"):
+        sel = call.split("opt:", 1)[1] if "opt:" in call else call.split(":", 1)[1]
+        sel = call.split(":")[-1]
+        base, _, form = sel.partition("@")
+        if base in ("full", "flip") and (form or base == "flip"):
+            opts = (DIV_DENSE_FLIP if base == "flip" else DIV_DENSE_OPTS).get(short, {})
+            for k, v in opts.items():
+                if isinstance(v, bool):
+                    out.append(f"flagforms:{k}:{ {'np': 'np.bool_', 'int': 'int', '': 'bool'}[form] }:{v}:via {via}")
+                elif isinstance(v, (int, float)) and (form or not v):
+                    fn = {"np": "np.int64" if isinstance(v, int) else "np.float64", "int": "int", "": type(v).__name__}[form]
+                    out.append(f"flagforms:{k}:{fn}:{v}:via {via}")
+    for tag, opt in (("a2@", "apply_a2"), ("iso@", "iso"), ("utd@", "up_to_diagonal")):
+        t = _div_tag(call, tag)
+        if t is not None:
+            out.append(f"flagforms:{opt}:{ {'np': 'np.bool_' if opt != 'iso' else 'np.int64', 'i': 'int', 'b': 'bool'}[t[:-1]] }:{t[-1]}:via {via}")
+    if call in ("u:all-pos@np", "u:all-kw@int", "u:all-pos@i32", "cnot:exact@np"):
+        out.append(f"flagforms:apply_a2+iso:{call.split('@')[1]}:via {via}")
+    if _div_tag(call, "csi=") is not None:
+        out.append(f"flagforms:ctrl_state:{'np.int64' if _div_tag(call, 'csform=') == 'np' else 'int'}:{_div_tag(call, 'csi=')}:via {via}")
+    if _div_tag(call, "eform=") is not None:
+        out.append(f"flagforms:error:{'np.float64' if _div_tag(call, 'eform=') == 'np' else 'int'}:{_div_tag(call, 'e')}:via {via}")
+    return out
+
 
 def _div_validation_frames(frames):
     return _in_validation(frames) or any(f[1] == "validate_parameter" for f in frames)
@@ -2620,6 +2708,8 @@ def _div_eval_inner(ctx, name, call, form, label, arr):
            "observed": (f"raised {ename}: {str(exc)[:120]}" if exc is not None else f"returned {type(ret).__name__}")}
     callfam = call.split(":")[0].split("+")[0]
     ctx.count(f"diversity:call:{kind}:{callfam}")
+    for c_ in _div_flagform_counters(short, call):
+        ctx.count(c_ + (":invalid-input" if cls.startswith("malformed") else ":valid-input"))
     bad = False
     # the caller's objects are never written to
     after = [_div_snap(w) for w in watched]
